@@ -193,10 +193,20 @@ def classify(rec, cobs, info, cfg):
 # --------------------------------------------------------------------------- the check
 
 def tlc_gen(cfg, workers):
+    cache = os.environ.get("C21_DEV_CACHE")      # development aid only
+    if cache and os.path.exists(os.path.join(cache, cfg + ".json")):
+        r = core.TLCResult()
+        with open(os.path.join(cache, cfg + ".json")) as f:
+            d = json.load(f)
+        r.printed, r.coverage, r.generated, r.distinct, r.ok = d["printed"], {k: tuple(v) for k, v in d["coverage"].items()}, d["generated"], d["distinct"], True
+        return r
     r = core.tlc("DefAssign", cfg, workers=workers, coverage=True, timeout=2400, heap="4g")
     if not r.ok:
         sys.stderr.write(r.out[-4000:])
         core.die("TLC (gen %s) failed: %s" % (cfg, r.violation or r.rc))
+    if cache:
+        with open(os.path.join(cache, cfg + ".json"), "w") as f:
+            json.dump({"printed": r.printed, "coverage": r.coverage, "generated": r.generated, "distinct": r.distinct}, f)
     return r
 
 
@@ -261,6 +271,7 @@ def run(tier, seed, only=None):
         selected = [("replay", p) for p in only]
 
     timing["gen"] = time.time() - t0
+    sys.stderr.write("c21: gen done %.0fs, %d programs\n" % (timing["gen"], len(selected)))
     # ---- 2. render + build
     progs = {}          # pid -> info
     for pid, (fam, p) in enumerate(selected, 1):
@@ -338,6 +349,7 @@ def run(tier, seed, only=None):
         if rnd > 8:
             core.die("lenient-mode compile errors do not converge")
     timing["build"] = time.time() - t0
+    sys.stderr.write("c21: build done %.0fs\n" % timing["build"])
     for pid, errs in sorted(rejected.items()):
         info = progs[pid]
         for cname, msg, off in sorted(errs):
@@ -407,6 +419,7 @@ def run(tier, seed, only=None):
         sys.stderr.write(r.out[-5000:])
         core.die("TLC (run phase) failed: %s" % (r.violation or r.rc))
     timing["run_tlc"] = time.time() - t0
+    sys.stderr.write("c21: run-phase TLC done %.0fs, %d states\n" % (timing["run_tlc"], r.distinct))
     states += r.distinct
     transitions += r.generated
     run_cov = {a: r.coverage.get(a, (0, 0))[1] for a in RUN_ACTIONS}
